@@ -964,6 +964,16 @@ class IsoHybrid:
         self.secondary_gpt.parts[1].first_lba = current_extent * 4
         self.secondary_gpt.parts[1].last_lba = (current_extent * 4) + sector_count - 1
 
+        # The Apple Partition Map counts in blocks of 2048 bytes; the first
+        # entry describes the map itself.
+        if len(self.primary_gpt.apm_parts) > 1:
+            self.primary_gpt.apm_parts[0].start_block = 1
+            self.primary_gpt.apm_parts[0].block_count = 4
+            self.primary_gpt.apm_parts[0].data_count = 4
+            self.primary_gpt.apm_parts[1].start_block = current_extent
+            self.primary_gpt.apm_parts[1].block_count = sector_count // 4
+            self.primary_gpt.apm_parts[1].data_count = sector_count // 4
+
     def update_mac(self, current_extent, sector_count):
         # type: (int, int) -> None
         """
@@ -984,5 +994,12 @@ class IsoHybrid:
         self.mac_lba = current_extent
         self.mac_count = sector_count
 
-        self.primary_gpt.parts[2].first_lba = current_extent * 4
-        self.primary_gpt.parts[2].last_lba = (current_extent * 4) + sector_count - 1
+        for gpt in (self.primary_gpt, self.secondary_gpt):
+            gpt.parts[2].first_lba = current_extent * 4
+            gpt.parts[2].last_lba = (current_extent * 4) + sector_count - 1
+
+        # The Apple Partition Map counts in blocks of 2048 bytes.
+        if len(self.primary_gpt.apm_parts) > 2:
+            self.primary_gpt.apm_parts[2].start_block = current_extent
+            self.primary_gpt.apm_parts[2].block_count = sector_count // 4
+            self.primary_gpt.apm_parts[2].data_count = sector_count // 4
